@@ -273,7 +273,7 @@ struct PairEngine : Engine
 	// the initial-state variant is explored one op shallower in the quick tier: with both acceptors already listening (variant 1)
 	// the same depth reaches further (three queued connects + two accepts fit in 6 ops)
 	// ... and there only for the sequences that start with a connect (the ones that build up a queue of SYNs); the others get 5 ops
-	int depth_of(int variant, bool connect_first = true) const { return thorough_ ? 7 : (variant == 0 ? 5 : (connect_first ? 6 : 5)); }
+	int depth_of(int variant, bool connect_first = true) const { return thorough_ ? (variant == 1 && connect_first ? 7 : 6) : (variant == 0 ? 5 : (connect_first ? 6 : 5)); }
 	uint64_t units(Args const& a) override
 	{
 		unit_prefix.clear(); unit_variant.clear(); unit_depth.clear(); thorough_ = a.thorough();
